@@ -6,6 +6,7 @@ CONSTANTS
   MaxVer = 3
   MaxKills = 3
   MaxRuns = 5
+  Caches = TRUE
   Variant = "code"
 INVARIANTS TypeOK C24_ReportedMeansEqual NoTornReported MarkedWhileDirty
 CHECK_DEADLOCK FALSE
